@@ -133,6 +133,13 @@ func c14Moves(c *ctx, p *tak.Position, k int) []tak.Move {
 }
 
 func runC14(c *ctx) {
+	if c.tier == "replay" {
+		parts := strings.Split(readReplay(c).Input, ";")
+		if p, err := decodeEnc(parts[0]); err == nil && len(parts) > 1 {
+			emitC14(c, p, decodeMove(parts[1]))
+		}
+		return
+	}
 	r := c.r
 	for g := 0; g < 30*c.scale; g++ {
 		size := 3 + g%6
